@@ -13,27 +13,6 @@ import (
 	svc "vdesign/gen/svc"
 )
 
-// jsonPutRequest: what encoding/json does between the client's and the
-// server's body struct (field <-> tag name, omitempty, nil <-> absent).
-func jsonPutRequest(dst *server.PutRequestBody, src *client.PutRequestBody) {
-	name, cnt := src.Name, src.Cnt
-	dst.Name, dst.Cnt = &name, &cnt
-	dst.F = src.F
-	if len(src.Tags) > 0 {
-		dst.Tags = append([]string{}, src.Tags...)
-	}
-	if src.Item != nil {
-		n := src.Item.N
-		dst.Item = &server.ItemRequestBody{N: &n, S: src.Item.S}
-	}
-	if len(src.M) > 0 {
-		dst.M = map[string]int{}
-		for k, v := range src.M {
-			dst.M[k] = v
-		}
-	}
-}
-
 // a1RoundTrip sends p through the generated client and the generated server
 // mounted on the real goa muxer; returns what the service method received.
 func a1RoundTrip(p *svc.PutPayload, result *svc.PutResult) (got *svc.PutPayload, w *recWriter, encErr error) {
@@ -42,9 +21,9 @@ func a1RoundTrip(p *svc.PutPayload, result *svc.PutResult) (got *svc.PutPayload,
 	if err != nil {
 		return nil, nil, err
 	}
-	var sent *client.PutRequestBody
+	var sent any
 	encode := client.EncodePutRequest(func(*http.Request) goahttp.Encoder {
-		return stubEncoder{func(v any) error { sent = *(v.(**client.PutRequestBody)); return nil }}
+		return stubEncoder{func(v any) error { sent = v; return nil }}
 	})
 	if err := encode(req, p); err != nil {
 		return nil, nil, err
@@ -64,10 +43,7 @@ func a1RoundTrip(p *svc.PutPayload, result *svc.PutResult) (got *svc.PutPayload,
 	}}
 	mux := goahttp.NewMuxer()
 	dec := func(*http.Request) goahttp.Decoder {
-		return stubDecoder{func(v any) error {
-			jsonPutRequest(v.(*server.PutRequestBody), sent)
-			return nil
-		}}
+		return stubDecoder{func(v any) error { return verifJSONCopy(v, sent) }}
 	}
 	srv := server.New(eps, mux, dec, recEncoder(), nil, nil)
 	server.Mount(mux, srv)
